@@ -130,7 +130,7 @@ func (u *c05Univ) declStruct(i int) string {
 		body := ""
 		if m.Ptr {
 			recv = "*" + recv
-			body = fmt.Sprintf("r.%s += 1000; ", sname(i))
+			body = fmt.Sprintf("r.%s += %d; ", sname(i), c05Mut)
 		}
 		if m.Sig == 1 {
 			fmt.Fprintf(&b, "func (r %s) %s(k int) string { %sreturn \"%s.%s:\" + strconv.Itoa(r.%s) + \":\" + strconv.Itoa(k) }\n\n", recv, m.Name, body, tname(i), m.Name, sname(i))
